@@ -47,6 +47,11 @@ class Probe:
         self._hook('guard')
         return self.truth.get(i, self.default)
 
+    def g(self, i):
+        """event-free guard form: its text can also be used as a statement (entry / exit code)"""
+        self.log.append(('g', i))
+        return self.truth.get(i, self.default)
+
     def tguard(self, i, event, after, idle, time):
         self.log.append(('tguard', i, ev(event), after, idle, time))
         self._hook('guard')
